@@ -1498,3 +1498,20 @@ Proof.
   rewrite (proj2 (String.eqb_neq _ _) H1), (proj2 (String.eqb_neq _ _) H2), (proj2 (String.eqb_neq _ _) H3).
   now apply json_number_bad.
 Qed.
+
+(** * write_pixels on its own (no validator, empty datasets): the loop theorem *)
+Theorem write_pixels_concat {V} (dflt : key * V) fits count maxsize (chunks : list (list (key * V))) r :
+  write_pixels dflt fits count (fun c => inr c) maxsize ([], 0, 0) chunks = inr r ->
+  r = (concat chunks, zlen (concat chunks), chunk_total count (concat chunks)).
+Proof.
+  intros H.
+  assert (Hinv : WInv count (([] : list (key * V)), 0, 0) []).
+  { unfold WInv. repeat split. unfold chunk_total. now destruct count. }
+  destruct (write_pixels_inv dflt fits count _ _ _ _ _ _ Hinv H) as (vch & HF & Hr & _ & Hne).
+  assert (Hv : vch = chunks).
+  { clear -HF. induction HF as [|c c' t t' Hc _ IH]; [reflexivity|]. inversion Hc; subst. reflexivity. }
+  subst vch. simpl in Hr, Hne. destruct r as [[stored nnz] total]. destruct Hr as (Hn & Hf & Ht).
+  destruct chunks as [|c t].
+  - simpl in H. inversion H; subst. simpl. unfold chunk_total. now destruct count.
+  - destruct Hne as [Hs _]; [congruence|]. simpl in Hs. subst. reflexivity.
+Qed.
